@@ -299,23 +299,38 @@ Proof.
 Qed.
 
 (* ---------------- J, M of the full-angle segment; corner sums *)
-Lemma cyl_inside_R (r z d h : R) : 0 < d ->
-  @cyl_inside RNum r z d h = true <-> (Rabs z <= h / 2 /\ r <= d / 2).
+Lemma cyl_inside_gen_R (pre : bool) (r z d h : R) : 0 < d ->
+  @cyl_inside_gen RNum pre r z d h = true <-> (Rabs z <= h / 2 /\ r <= d / 2).
 Proof.
-  intros Hd. unfold cyl_inside. cbn [ndiv nabs nleb nofZ RNum].
+  intros Hd. unfold cyl_inside_gen. cbn [ndiv nabs nleb nofZ RNum].
   assert (H0 : 0 < d / 2) by lra.
   assert (Hz : Rabs (z / (d / 2)) = Rabs z / (d / 2)).
   { unfold Rdiv at 1. rewrite Rabs_mult, Rabs_inv, (Rabs_pos_eq (d / 2)) by lra. reflexivity. }
-  rewrite Hz. rewrite andb_true_iff.
-  destruct (Rle_dec (Rabs z / (d / 2)) (h / 2 / (d / 2))) as [H1|H1];
-  destruct (Rle_dec (r / (d / 2)) 1) as [H2|H2]; split; intros [Ha Hb]; try discriminate; try (split; reflexivity).
-  - split.
-    + apply (Rmult_le_reg_r (/ (d / 2))); [apply Rinv_0_lt_compat; lra|exact H1].
-    + apply (Rmult_le_reg_r (/ (d / 2))); [apply Rinv_0_lt_compat; lra|]. unfold Rdiv in H2. rewrite Rinv_r by lra. exact H2.
-  - exfalso. apply H2. apply (Rmult_le_reg_r (d / 2)); [lra|]. unfold Rdiv. rewrite Rmult_assoc, Rinv_l by lra. lra.
-  - exfalso. apply H1. apply Rmult_le_compat_r; [left; apply Rinv_0_lt_compat; lra|exact Ha].
-  - exfalso. apply H1. apply Rmult_le_compat_r; [left; apply Rinv_0_lt_compat; lra|exact Ha].
+  assert (Hs : Rabs z / (d / 2) <= h / 2 / (d / 2) <-> Rabs z <= h / 2).
+  { split; intros H.
+    - apply (Rmult_le_reg_r (/ (d / 2))); [apply Rinv_0_lt_compat; lra|exact H].
+    - apply Rmult_le_compat_r; [left; apply Rinv_0_lt_compat; lra|exact H]. }
+  assert (Hr : r / (d / 2) <= 1 <-> r <= d / 2).
+  { split; intros H.
+    - apply (Rmult_le_reg_r (/ (d / 2))); [apply Rinv_0_lt_compat; lra|]. unfold Rdiv in H. rewrite Rinv_r by lra. exact H.
+    - apply (Rmult_le_reg_r (d / 2)); [lra|]. unfold Rdiv. rewrite Rmult_assoc, Rinv_l by lra. lra. }
+  rewrite andb_true_iff. rewrite Hz.
+  destruct pre.
+  - destruct (Rle_dec (Rabs z) (h / 2)) as [H1|H1]; destruct (Rle_dec (r / (d / 2)) 1) as [H2|H2];
+      split; intros [Ha Hb]; try discriminate; try (split; reflexivity); try tauto.
+    + split; [exact H1|apply Hr; exact H2].
+    + exfalso. apply H2. apply Hr. exact Hb.
+  - destruct (Rle_dec (Rabs z / (d / 2)) (h / 2 / (d / 2))) as [H1|H1]; destruct (Rle_dec (r / (d / 2)) 1) as [H2|H2];
+      split; intros [Ha Hb]; try discriminate; try (split; reflexivity).
+    + split; [apply Hs; exact H1|apply Hr; exact H2].
+    + exfalso. apply H2. apply Hr. exact Hb.
+    + exfalso. apply H1. apply Hs. exact Ha.
+    + exfalso. apply H1. apply Hs. exact Ha.
 Qed.
+
+Lemma cyl_inside_R (r z d h : R) : 0 < d ->
+  @cyl_inside RNum r z d h = true <-> (Rabs z <= h / 2 /\ r <= d / 2).
+Proof. apply cyl_inside_gen_R. Qed.
 
 Lemma Rneqb_false a b : neqb RNum a b = true <-> a = b.
 Proof. simpl. destruct (Req_EM_T a b); split; intros; auto; try discriminate; contradiction. Qed.
